@@ -353,13 +353,31 @@ theorem c05_utf8_chunking (d : Utf8) (chunks chunks' : List (List UInt8)) (h : c
   · rw [runChunks_flatten, runChunks_flatten]; simp
   · rw [runChunks_flatten]; unfold decodeUtf8; rfl
 
+/-- the same for a decoder created **without** an `on_codepoint` callback (options NULL): the
+verdict of updates-then-finalize is the same for every chunking, from any decoder state, equals the
+verdict of the decoder with a callback, and equals `aws_decode_utf8(bytes, NULL)`. -/
+theorem c05_utf8_chunking_nocb (d : Utf8) (chunks chunks' : List (List UInt8)) (h : chunks.flatten = chunks'.flatten) :
+    runChunksNoCb d chunks = runChunksNoCb d chunks' ∧ runChunksNoCb d chunks = runChunksNoCb d [chunks.flatten] ∧
+    runChunksNoCb d chunks = (runChunks d chunks).1 ∧
+    runChunksNoCb Utf8.init chunks = decodeUtf8NoCb chunks.flatten ∧
+    decodeUtf8NoCb chunks.flatten = (decodeUtf8 chunks.flatten).1 := by
+  have k := c05_utf8_chunking d chunks chunks' h
+  have k0 := c05_utf8_chunking Utf8.init chunks chunks' h
+  refine ⟨?_, ?_, runChunksNoCb_eq _ _, ?_, decodeUtf8NoCb_eq _⟩
+  · rw [runChunksNoCb_eq, runChunksNoCb_eq, k.1]
+  · rw [runChunksNoCb_eq, runChunksNoCb_eq, ← k.2.1]
+  · rw [runChunksNoCb_eq, decodeUtf8NoCb_eq, k0.2.2]
+
 /-- `aws_utf8_decoder_finalize` leaves a fresh decoder, whatever happened before. -/
 theorem c05_utf8_finalize_resets (d : Utf8) : (finalize d).1 = Utf8.init := rfl
 
 /-- "€" split inside the sequence: same verdict and code point as in one piece -/
 example : runChunks Utf8.init [[0xE2], [], [0x82, 0xAC]] = (none, [0x20AC]) ∧
     decodeUtf8 [0xE2, 0x82, 0xAC] = (none, [0x20AC]) ∧
-    runChunks Utf8.init [[0xE2], [0x82]] = (some .invalidUtf8, []) := by decide +kernel
+    runChunks Utf8.init [[0xE2], [0x82]] = (some .invalidUtf8, []) ∧
+    -- lead byte | ASCII | continuation: invalid in one piece and in every chunking, with or without callback
+    decodeUtf8NoCb [0xC2, 0x41, 0xA3] = some .invalidUtf8 ∧ runChunksNoCb Utf8.init [[0xC2], [0x41, 0xA3]] = some .invalidUtf8 ∧
+    runChunksNoCb Utf8.init [[0xC2], [0xA3, 0x41]] = none := by decide +kernel
 
 /-- `aws_decode_utf8` (hence, by `c05_utf8_chunking`, every chunked run) accepts exactly the texts
 of the RFC 3629 §4 grammar *without its U+10FFFF upper bound* (shortest form only, no surrogates,
